@@ -513,3 +513,267 @@ Proof.
   exists docs, n, (anon_struct_generics (egenerics sh) fields), ms. split; [exact E1|].
   cbn [sgenerics sfields anon_struct] in E2. rewrite E2. apply map_ext_in. intros f Hf. now apply c05_erase_anon.
 Qed.
+
+(* ====================================================================================== *)
+(* More use sites: Python classes, Swift payloads, Go members / payloads, Kotlin value classes *)
+(* ====================================================================================== *)
+Definition c05_total {St A} (mm : M St A) : Prop := forall st, exists a st', mm st = Ok (a, st').
+
+Lemma total_ret {St A} (a : A) : @c05_total St A (ret a).
+Proof. intros st. unfold ret. eauto. Qed.
+Lemma total_bind {St A B} (mm : M St A) (f : A -> M St B) : c05_total mm -> (forall a, c05_total (f a)) -> c05_total (mbind mm f).
+Proof. intros Hm Hf st. destruct (Hm st) as [a [s1 E1]]. destruct (Hf a s1) as [b [s2 E2]]. exists b, s2. unfold mbind. now rewrite E1. Qed.
+
+Section PY2.
+Variable uc : unicode.
+Variable cfg : py_config.
+Notation c := (c05_py_cfg cfg).
+Notation erase := (c05_erase Python (c05_py_cfg cfg)).
+
+Lemma py_add_common_imports_total a b d : c05_total (py_add_common_imports a b d).
+Proof.
+  unfold py_add_common_imports.
+  apply total_bind; [destruct a; [apply py_add_import_total|apply total_ret]|]. intros _.
+  apply total_bind.
+  { destruct b; [|apply total_ret].
+    apply total_bind; [apply py_add_import_total|]. intros _.
+    apply total_bind; [apply py_add_import_total|]. intros _. apply py_add_import_total. }
+  intros _. destruct (a || d)%bool eqn:E.
+  - destruct a, d; try discriminate E; cbn [orb]; apply py_add_import_total.
+  - destruct a, d; try discriminate E; cbn [orb]; apply total_ret.
+Qed.
+
+Lemma py_add_type_vars_total names : c05_total (py_add_type_vars names).
+Proof.
+  induction names as [|n r IH]; cbn [py_add_type_vars]; [apply total_ret|].
+  apply total_bind; [|intros _; exact IH].
+  unfold py_add_type_var. apply total_bind; [apply py_add_import_total|]. intros _.
+  intros st. unfold mbind, mget, mput. eauto.
+Qed.
+
+Lemma py_populate_by_name_total fs : c05_total (py_populate_by_name uc fs).
+Proof.
+  unfold py_populate_by_name. destruct (existsb _ fs); [|apply total_ret].
+  apply total_bind; [apply py_add_import_total|]. intros _. apply total_ret.
+Qed.
+
+Definition py_field_type (g : list str) (f : rfield) : texp :=
+  if negb (is_optional (fty f)) && has_default f then XOpt (erase g (fty f)) else erase g (fty f).
+
+Lemma py_member_type g f : c05_field_ok Python c g f ->
+  runs_sat (py_member_of uc cfg g f) (fun mm => pym_type mm = py_field_type g f).
+Proof.
+  intros [Hd [Hk _]]. unfold py_member_of.
+  eapply sat_bind; [apply runs_to_sat, (C05_fmt_py cfg g (fty f) Hd Hk)|]. intros ty ->.
+  eapply sat_bind; [apply total_sat, py_add_common_imports_total|]. intros _ _.
+  eapply sat_bind with (P := fun _ => True).
+  { apply total_sat. destruct (py_json_translation_for_type _); [|apply total_ret].
+    apply total_bind; [apply py_add_custom_type_total|]. intros _. apply total_ret. }
+  intros ann _. apply sat_ret. reflexivity.
+Qed.
+
+Theorem C05_site_py_struct s :
+  Forall (c05_field_ok Python c (sgenerics s)) (sfields s) ->
+  runs_sat (py_class_of uc cfg s)
+           (fun d => exists docs name pbn ms, d = PYClass docs name (sgenerics s) pbn ms /\
+                                              map pym_type ms = map (py_field_type (sgenerics s)) (sfields s)).
+Proof.
+  intros Hall. unfold py_class_of.
+  eapply sat_bind; [apply total_sat, py_add_import_total|]. intros _ _.
+  eapply sat_bind; [apply total_sat, py_add_type_vars_total|]. intros _ _.
+  eapply sat_bind with (P := fun _ => True).
+  { apply total_sat. destruct (sgenerics s); [apply total_ret|apply py_add_import_total]. }
+  intros _ _.
+  eapply sat_bind; [apply total_sat, py_populate_by_name_total|]. intros pbn _.
+  eapply sat_bind.
+  { apply (mmapM_sat (py_member_of uc cfg (sgenerics s)) (fun f mm => pym_type mm = py_field_type (sgenerics s) f)).
+    intros f Hf. apply py_member_type. rewrite Forall_forall in Hall. auto. }
+  intros ms Hms. apply sat_ret. do 4 eexists. split; [reflexivity|]. now apply Forall2_map_eq.
+Qed.
+
+(* the helper class of a struct variant translates its fields as under the enum's generics *)
+Theorem C05_site_py_variant_fields sh name vo fields :
+  Forall (c05_field_ok Python c (egenerics sh)) fields ->
+  runs_sat (py_class_of uc cfg (anon_struct sh name vo fields))
+           (fun d => exists docs n gs pbn ms, d = PYClass docs n gs pbn ms /\
+                                              map pym_type ms = map (py_field_type (egenerics sh)) fields).
+Proof.
+  intros Hall st.
+  destruct (C05_site_py_struct (anon_struct sh name vo fields) (Forall_field_ok_anon _ _ _ _ Hall) st)
+    as [d [s' [E [docs [n [pbn [ms [-> Hm]]]]]]]].
+  exists (PYClass docs n (sgenerics (anon_struct sh name vo fields)) pbn ms), s'. split; [exact E|].
+  do 5 eexists. split; [reflexivity|]. cbn [sgenerics sfields anon_struct] in Hm. rewrite Hm.
+  apply map_ext_in. intros f Hf. unfold py_field_type. now rewrite (c05_erase_anon Python c (egenerics sh) fields f Hf).
+Qed.
+End PY2.
+
+Section SW2.
+Variable uc : unicode.
+Variable cfg : sw_config.
+Notation c := (c05_sw_cfg cfg).
+Notation erase := (c05_erase Swift (c05_sw_cfg cfg)).
+
+(* whenever the variant is produced at all (its name may make to_camel_case panic: C07) *)
+Theorem C05_site_sw_payload sh t vsh st v st' :
+  dom_C05 t = true -> known_C05 Swift c (egenerics sh) t = None ->
+  sw_variant_of uc cfg sh (VTuple t vsh) st = Ok (v, st') ->
+  exists esc opt, swv_payload v = SWPTuple (erase (egenerics sh) t) esc opt.
+Proof.
+  intros Hd Hk H. unfold sw_variant_of in H. unfold mbind at 1 in H.
+  destruct (sw_lift _ st) as [[camel s1]| |]; try discriminate.
+  unfold mbind at 1 in H. unfold mbind at 1 in H.
+  destruct (C05_fmt_sw cfg (egenerics sh) t Hd Hk s1) as [s2 E]. rewrite E in H.
+  unfold ret in H. injection H as <- _. cbn [swv_payload]. eauto.
+Qed.
+End SW2.
+
+(* ---- Kotlin value classes: positive half ---- *)
+(* Kotlin's classes do not depend on the generics list at all *)
+Lemma kt_known_generics m g g' t : c05_known Kotlin m g t = c05_known Kotlin m g' t.
+Proof.
+  induction t using rtype_ind'; cbn [c05_known c05_instances c05_refuses_generic_keys andb]; try congruence.
+  - destruct (c05_lookup m id); [reflexivity|].
+    induction H as [|x r Hx Hr IH]; [reflexivity|]. rewrite Hx. destruct (c05_known Kotlin m g' x); [reflexivity|exact IH].
+  - rewrite IHt1, IHt2. destruct t1; reflexivity.
+Qed.
+
+(* no surviving generic parameter: the skeleton is the one obtained under no generics at all *)
+Lemma c05_core_no_param m g t :
+  c05_uses_param false m g t = false -> c05_core false m g t = c05_core false m [] t.
+Proof.
+  unfold c05_uses_param. induction t using rtype_ind'; cbn [c05_core]; intros Hu.
+  - destruct (c05_lookup m id); [reflexivity|]. cbn [c05_tree_ids flat_map existsb app] in Hu.
+    apply orb_false_iff in Hu as [Hu _]. now rewrite Hu.
+  - destruct (c05_lookup m id); [reflexivity|]. cbn [c05_tree_ids existsb] in Hu.
+    apply orb_false_iff in Hu as [Hu1 Hu2]. rewrite Hu1. cbn [mem_str existsb]. f_equal.
+    apply map_ext_in. intros x Hx. rewrite Forall_forall in H. apply (H x Hx).
+    destruct (existsb (fun id0 => mem_str id0 g) (c05_tree_ids (c05_core false m g x))) eqn:E; [|reflexivity].
+    apply existsb_exists in E as [y [Hy1 Hy2]].
+    assert (Hin : existsb (fun id0 => mem_str id0 g) (flat_map c05_tree_ids (map (c05_core false m g) ps)) = true).
+    { apply existsb_exists. exists y. split; [|assumption]. apply in_flat_map. exists (c05_core false m g x). split; [now apply in_map|assumption]. }
+    congruence.
+  - cbn [c05_tree_ids] in Hu. now rewrite IHt.
+  - cbn [c05_tree_ids] in Hu. now rewrite IHt.
+  - cbn [c05_tree_ids] in Hu. now rewrite IHt.
+  - cbn [c05_tree_ids] in Hu. rewrite existsb_app in Hu. apply orb_false_iff in Hu as [H1 H2]. now rewrite IHt1, IHt2.
+  - cbn [c05_tree_ids] in Hu. now rewrite IHt.
+  - reflexivity.
+Qed.
+
+(* an empty prefix: user types and generic parameters are spelled alike *)
+Lemma kt_render_no_prefix c m g g' t : c05_pre c = [] ->
+  c05_render Kotlin c (c05_core false m g t) = c05_render Kotlin c (c05_core false m g' t).
+Proof.
+  intros Hp. induction t using rtype_ind'; cbn [c05_core].
+  - destruct (c05_lookup m id); [reflexivity|]. cbn [c05_render c05_prefix map]. rewrite Hp. cbn [app].
+    now destruct (mem_str id g), (mem_str id g').
+  - destruct (c05_lookup m id); [reflexivity|]. cbn [c05_render c05_prefix]. rewrite Hp, !map_map. cbn [app].
+    assert (E : map (fun x => c05_render Kotlin c (c05_core false m g x)) ps = map (fun x => c05_render Kotlin c (c05_core false m g' x)) ps).
+    { apply map_ext_in. intros x Hx. rewrite Forall_forall in H. now apply H. }
+    rewrite E. now destruct (mem_str id g), (mem_str id g').
+  - cbn [c05_render]. congruence.
+  - cbn [c05_render]. congruence.
+  - cbn [c05_render]. congruence.
+  - cbn [c05_render]. congruence.
+  - cbn [c05_render]. congruence.
+  - reflexivity.
+Qed.
+
+(* outside the recorded class the value class carries exactly the translation under the alias's generics *)
+Theorem C05_site_kt_inline_alias_full cfg a :
+  kt_is_inline (adecs a) = true -> dom_C05 (atype a) = true ->
+  known_C05_site Kotlin (c05_kt_cfg cfg) C05SInlineAlias (agenerics a) (atype a) = None ->
+  exists docs name mm red, kt_alias_decl cfg a = Ok (KTValueClass docs name mm red) /\
+                           km_type mm = c05_erase Kotlin (c05_kt_cfg cfg) (agenerics a) (atype a).
+Proof.
+  intros Hi Hd Hk. unfold known_C05_site in Hk. cbn [c05_site_generics] in Hk.
+  destruct (known_C05 Kotlin (c05_kt_cfg cfg) (agenerics a) (atype a)) eqn:Ek; [discriminate|].
+  assert (Ek0 : known_C05 Kotlin (c05_kt_cfg cfg) [] (atype a) = None).
+  { unfold known_C05 in *. now rewrite (kt_known_generics _ [] (agenerics a)). }
+  destruct (C05_site_kt_inline_alias cfg a Hi Hd Ek0) as [docs [name [mm [red [E1 E2]]]]].
+  exists docs, name, mm, red. split; [exact E1|]. rewrite E2. unfold c05_erase. cbn [c05_instances].
+  destruct (match c05_pre (c05_kt_cfg cfg) with [] => false | _ => true end) eqn:Ep.
+  - cbn [andb] in Hk. destruct (c05_uses_param false (c05_m (c05_kt_cfg cfg)) (agenerics a) (atype a)) eqn:Eu; [discriminate|].
+    now rewrite (c05_core_no_param _ _ _ Eu).
+  - apply kt_render_no_prefix. destruct (c05_pre (c05_kt_cfg cfg)); [reflexivity|discriminate].
+Qed.
+
+(* ---- Go struct fields (uppercase_acronyms empty: the acronym pass is the identity) ---- *)
+Section GoTyInd.
+  Variable P : go_ty -> Prop.
+  Hypothesis HN : forall n args, Forall P args -> P (GName n args).
+  Hypothesis HS : forall e, P e -> P (GSlice e).
+  Hypothesis HA : forall n e, P e -> P (GArray n e).
+  Hypothesis HM : forall k v, P k -> P v -> P (GMap k v).
+  Hypothesis HP : forall e, P e -> P (GPtr e).
+  Hypothesis HR : forall t, P (GRaw t).
+  Fixpoint go_ty_ind' (t : go_ty) : P t :=
+    match t with
+    | GName n args => HN n args ((fix go (l : list go_ty) : Forall P l :=
+                                    match l with [] => Forall_nil P | x :: r => Forall_cons x (go_ty_ind' x) (go r) end) args)
+    | GSlice e => HS e (go_ty_ind' e)
+    | GArray n e => HA n e (go_ty_ind' e)
+    | GMap k v => HM k v (go_ty_ind' k) (go_ty_ind' v)
+    | GPtr e => HP e (go_ty_ind' e)
+    | GRaw x => HR x
+    end.
+End GoTyInd.
+
+Section GO2.
+Variable uc : unicode.
+Variable cfg : go_config.
+Hypothesis Hnil : go_uppercase_acronyms cfg = [].
+Notation c := (c05_go_cfg cfg).
+Notation erase := (c05_erase Go (c05_go_cfg cfg)).
+
+Lemma go_ty_acronyms_nil t : go_ty_acronyms uc cfg t = Ok t.
+Proof.
+  induction t using go_ty_ind'; cbn [go_ty_acronyms]; rewrite ?Hnil; cbn [go_convert_acronyms_to_uppercase fold_left bind].
+  - assert (E : (fix go (l : list go_ty) : outcome (list go_ty) :=
+                   match l with
+                   | [] => Ok []
+                   | x :: r => do y <- go_ty_acronyms uc cfg x; do ys <- go r; Ok (y :: ys)
+                   end) args = Ok args).
+    { induction H as [|x r Hx Hr IH]; [reflexivity|]. rewrite Hx. cbn [bind]. rewrite IH. reflexivity. }
+    unfold go_convert_acronyms_to_uppercase. cbn [fold_left bind]. rewrite E. reflexivity.
+  - rewrite IHt. reflexivity.
+  - rewrite IHt. reflexivity.
+  - rewrite IHt1, IHt2. reflexivity.
+  - rewrite IHt. reflexivity.
+  - unfold go_convert_acronyms_to_uppercase. reflexivity.
+Qed.
+
+Lemma go_acronyms_text_nil name st : go_acronyms_to_uppercase uc cfg name st = Ok (name, st).
+Proof. unfold go_acronyms_to_uppercase, go_lift. rewrite Hnil. reflexivity. Qed.
+
+Lemma go_acronyms_ty_nil t st : go_acronyms_ty uc cfg t st = Ok (t, st).
+Proof.
+  unfold go_acronyms_ty, mbind. rewrite go_acronyms_text_nil, go_ty_acronyms_nil, str_eqb_refl. reflexivity.
+Qed.
+
+Lemma go_member_type g f : c05_field_ok Go c g f ->
+  runs_sat (go_member_of uc cfg g f) (fun mm => go_obs_ty (gm_type mm) = erase g (fty f)).
+Proof.
+  intros [Hd [Hk Ho]]. unfold go_member_of. rewrite Ho.
+  eapply sat_bind; [exact (C05_fmt_go cfg g (fty f) Hd Hk)|]. intros ty Hty.
+  intros st. unfold mbind. rewrite go_acronyms_ty_nil. unfold go_format_field_name. rewrite go_acronyms_text_nil.
+  unfold ret. eauto.
+Qed.
+
+Theorem C05_site_go_struct rs :
+  Forall (c05_field_ok Go c (sgenerics rs)) (sfields rs) ->
+  runs_sat (go_struct_decl_of uc cfg rs)
+           (fun d => exists docs name ms, d = GOStruct docs name (sgenerics rs) ms /\
+                                          map (fun mm => go_obs_ty (gm_type mm)) ms = map (fun f => erase (sgenerics rs) (fty f)) (sfields rs)).
+Proof.
+  intros Hall. unfold go_struct_decl_of.
+  eapply sat_bind with (P := fun _ => True).
+  { intros st. rewrite go_acronyms_text_nil. eauto. }
+  intros name _.
+  eapply sat_bind.
+  { apply (mmapM_sat (go_member_of uc cfg (sgenerics rs)) (fun f mm => go_obs_ty (gm_type mm) = erase (sgenerics rs) (fty f))).
+    intros f Hf. apply go_member_type. rewrite Forall_forall in Hall. auto. }
+  intros ms Hms. apply sat_ret. do 3 eexists. split; [reflexivity|].
+  now apply (Forall2_map_eq (sfields rs) ms (fun mm => go_obs_ty (gm_type mm)) (fun f => erase (sgenerics rs) (fty f))).
+Qed.
+End GO2.
